@@ -1,2 +1,185 @@
-use crate::harness::Gen;
-pub fn gens() -> Vec<Gen> { vec![] }
+//! C09: credentials outside their validity window are never accepted.
+
+use crate::harness::{fail, Gen, Verdict};
+use crate::keys;
+use crate::oracle::Strategy;
+use crate::pipeline::{build_crafted, honest_kb_claims, make_kb, select_all, sign, Cfg};
+use crate::rng::Rng;
+use crate::sut::{self, Kb, Out};
+use crate::util::{jstr, now, short, Parts, FAR_EXP, J};
+use serde_json::json;
+
+pub fn gens() -> Vec<Gen> {
+    vec![
+        Gen { name: "c09.signed", prop: "C09", tags: &["exp", "nbf", "leeway", "validation", "required", "src/verifier.rs"], cases: cases_signed, check },
+        Gen { name: "c09.lib_issued", prop: "C09", tags: &["issued", "hidden"], cases: cases_lib, check },
+    ]
+}
+
+const Y: i64 = 365 * 86400;
+
+fn exp_specs() -> Vec<(J, bool)> {
+    // (spec, must_accept)
+    vec![
+        (json!({"kind": "absent"}), false),
+        (json!({"kind": "value", "value": null}), false),
+        (json!({"kind": "value", "value": "1883000000"}), false),
+        (json!({"kind": "value", "value": "never"}), false),
+        (json!({"kind": "value", "value": true}), false),
+        (json!({"kind": "value", "value": [4102444800u64]}), false),
+        (json!({"kind": "value", "value": {"t": 4102444800u64}}), false),
+        (json!({"kind": "value", "value": -1}), false),
+        (json!({"kind": "value", "value": -4102444800i64}), false),
+        (json!({"kind": "value", "value": 0}), false),
+        (json!({"kind": "value", "value": 1}), false),
+        (json!({"kind": "offset", "secs": -10 * Y}), false),
+        (json!({"kind": "offset", "secs": -Y}), false),
+        (json!({"kind": "offset", "secs": -86400}), false),
+        (json!({"kind": "offset", "secs": -16 * 3600}), false),
+        (json!({"kind": "offset", "secs": -3600}), false),
+        (json!({"kind": "offset", "secs": -600}), false),
+        (json!({"kind": "offset", "secs": -120}), false),
+        (json!({"kind": "offset", "secs": 120}), true),
+        (json!({"kind": "offset", "secs": 3600}), true),
+        (json!({"kind": "offset", "secs": 10 * Y}), true),
+        (json!({"kind": "value", "value": FAR_EXP}), true),
+        (json!({"kind": "value", "value": 4102444800.0}), true),
+    ]
+}
+
+fn nbf_specs() -> Vec<(J, bool)> {
+    vec![
+        (json!({"kind": "absent"}), true),
+        (json!({"kind": "value", "value": 0}), true),
+        (json!({"kind": "value", "value": 1683000000}), true),
+        (json!({"kind": "offset", "secs": -10 * Y}), true),
+        (json!({"kind": "offset", "secs": -3600}), true),
+        (json!({"kind": "offset", "secs": -120}), true),
+        (json!({"kind": "offset", "secs": 120}), false),
+        (json!({"kind": "offset", "secs": 600}), false),
+        (json!({"kind": "offset", "secs": 3600}), false),
+        (json!({"kind": "offset", "secs": 16 * 3600}), false),
+        (json!({"kind": "offset", "secs": 86400}), false),
+        (json!({"kind": "offset", "secs": Y}), false),
+        (json!({"kind": "offset", "secs": 10 * Y}), false),
+        (json!({"kind": "value", "value": FAR_EXP}), false),
+    ]
+}
+
+fn cases_signed(_rng: &mut Rng, sink: &mut dyn FnMut(J) -> bool) {
+    let mut n = 0usize;
+    let configs = [("compact", false, "ES256"), ("json", false, "ES256"), ("compact", true, "EdDSA"), ("json", true, "HS256"), ("json", false, "EdDSA"), ("compact", true, "ES256")];
+    // exp varies with nbf absent / in the past; nbf varies with a good exp
+    for (format, kb, alg) in configs {
+        for (e, e_ok) in exp_specs() {
+            for (nb, nb_ok) in [(json!({"kind": "absent"}), true), (json!({"kind": "offset", "secs": -3600}), true)] {
+                n += 1;
+                if !sink(json!({"mode": "signed", "exp": e, "nbf": nb, "accept": e_ok && nb_ok, "format": format, "kb": kb, "alg": alg, "with_disclosures": n % 2 == 0})) {
+                    return;
+                }
+            }
+        }
+        for (nb, nb_ok) in nbf_specs() {
+            for (e, e_ok) in [(json!({"kind": "value", "value": FAR_EXP}), true), (json!({"kind": "offset", "secs": 3600}), true)] {
+                n += 1;
+                if !sink(json!({"mode": "signed", "exp": e, "nbf": nb, "accept": e_ok && nb_ok, "format": format, "kb": kb, "alg": alg, "with_disclosures": n % 2 == 0})) {
+                    return;
+                }
+            }
+        }
+    }
+}
+
+fn cases_lib(_rng: &mut Rng, sink: &mut dyn FnMut(J) -> bool) {
+    let mut n = 0usize;
+    for strategy in ["NoSD", "TopLevel", "AllLevels"] {
+        for (format, kb, alg) in [("compact", false, "ES256"), ("json", true, "EdDSA"), ("json", false, "HS256"), ("compact", true, "ES256")] {
+            for (e, e_ok) in exp_specs() {
+                if e["kind"] == "absent" || !(e["value"].is_number() || e["kind"] == "offset") {
+                    continue;
+                }
+                n += 1;
+                if !sink(json!({"mode": "lib", "strategy": strategy, "exp": e, "nbf": {"kind": "absent"}, "accept": e_ok, "format": format, "kb": kb, "alg": alg})) {
+                    return;
+                }
+            }
+            for (nb, nb_ok) in nbf_specs() {
+                n += 1;
+                if !sink(json!({"mode": "lib", "strategy": strategy, "exp": {"kind": "value", "value": FAR_EXP}, "nbf": nb, "accept": nb_ok, "format": format, "kb": kb, "alg": alg, "select_nbf": n % 2 == 0})) {
+                    return;
+                }
+            }
+        }
+    }
+}
+
+fn resolve(spec: &J) -> Option<J> {
+    match spec["kind"].as_str()? {
+        "absent" => None,
+        "value" => Some(spec["value"].clone()),
+        _ => Some(json!(now() + spec["secs"].as_i64()?)),
+    }
+}
+
+pub fn check(case: &J) -> Verdict {
+    let format = case["format"].as_str().unwrap_or("compact");
+    let alg = case["alg"].as_str().unwrap_or("ES256");
+    let want_kb = case["kb"].as_bool().unwrap_or(false);
+    let accept = case["accept"].as_bool().unwrap_or(false);
+    let kb = Kb::new("es256");
+    let exp = resolve(&case["exp"]);
+    let nbf = resolve(&case["nbf"]);
+    let text = if case["mode"] == "lib" {
+        let mut claims = json!({"iss": "https://issuer.example/i", "a": "x", "b": {"c": 1}});
+        if let Some(e) = &exp {
+            claims["exp"] = e.clone();
+        }
+        if let Some(nb) = &nbf {
+            claims["nbf"] = nb.clone();
+        }
+        let Some(strategy) = Strategy::from_json(&case["strategy"]) else { return Verdict::Trivial };
+        let cfg = Cfg { claims: claims.clone(), strategy, format: format.into(), alg: alg.into(), decoys: false, holder: if want_kb { Some("es256".into()) } else { None } };
+        let Out::Ok(issued) = cfg.issue() else { return Verdict::Trivial };
+        let Out::Ok(mut h) = sut::holder_new(&issued, format) else { return Verdict::Trivial };
+        let mut sel = select_all(&claims);
+        if !case["select_nbf"].as_bool().unwrap_or(true) {
+            sel.insert("nbf".into(), J::Bool(false));
+        }
+        match sut::present(&mut h, &sel, if want_kb { Some(&kb) } else { None }) {
+            Out::Ok(p) => p,
+            _ => return Verdict::Trivial,
+        }
+    } else {
+        let with_d = case["with_disclosures"].as_bool().unwrap_or(true);
+        let mut payload = json!({"iss": "https://issuer.example/i", "vis": "v"});
+        if with_d {
+            payload["_sd"] = json!(["#0", "#1"]);
+        }
+        if let Some(e) = &exp {
+            payload["exp"] = e.clone();
+        }
+        if let Some(nb) = &nbf {
+            payload["nbf"] = nb.clone();
+        }
+        if want_kb {
+            payload["cnf"] = json!({"jwk": keys::holder_jwk_json("es256")});
+        }
+        let (payload, ds) = build_crafted(&payload, &[json!(["c2FsdC1zYWx0LXNhbHQtMDE", "n0", "v0"]), json!(["c2FsdC1zYWx0LXNhbHQtMDI", "n1", {"k": 1}])]);
+        let ds = if with_d { ds } else { vec![] };
+        let jwt = sign(&payload, alg);
+        let kbs = if want_kb {
+            make_kb(&keys::holder_enc("es256"), "ES256", Some("kb+jwt"), &honest_kb_claims(&kb, &jwt, &ds))
+        } else {
+            None
+        };
+        Parts { jwt, disclosures: ds, kb: kbs }.serialize(format)
+    };
+    let o = sut::verify(&text, alg, if want_kb { Some(&kb) } else { None }, format);
+    let what = format!("exp = {}, nbf = {} (now = {})", exp.map(|e| jstr(&e)).unwrap_or("absent".into()), nbf.map(|e| jstr(&e)).unwrap_or("absent".into()), now());
+    match (o, accept) {
+        (Out::Ok(_), true) | (Out::Err(_), false) => Verdict::Pass,
+        (Out::Ok(v), false) => fail(format!("ACCEPTED a credential with {what}; claims {}", short(&jstr(&v), 200)), "rejected (outside the validity window / no usable exp)"),
+        (Out::Err(e), true) => fail(format!("rejected a credential inside its window ({what}): {e}"), "accepted"),
+        (Out::Panic(m), _) => fail(format!("PANIC: {m} ({what})"), if accept { "accepted" } else { "rejected with an error" }),
+    }
+}
